@@ -41,7 +41,7 @@ import (
 )
 
 func main() {
-	Main("C14", runC14, map[string]func([]string){"ops": helperOps, "opsmulti": helperOpsMulti})
+	Main("C14", runC14, map[string]func([]string){"ops": helperOps, "opsmulti": helperOpsMulti, "serve": helperServe})
 }
 
 // ---------- the record kept in the status file ----------
@@ -1297,7 +1297,7 @@ func runTrace(c *Ctx, im *Impl, cf *CaseFile, rd *round, idx int) {
 
 func runC14(c *Ctx) {
 	im := NewImpl("C14", c.Seed, c.Tier)
-	im.Rule = "trace rounds: 1-3 OS processes x 1-3 thread-locked goroutines run random programs of 2-6 UpdateFullStatus/Load/Save calls (two thirds of the rounds with Saves) under one strace; non-trivial = at least 2 processes and at least one flock call had to wait. stress rounds: 2-4 processes x 2-4 goroutines x 10-60 operations (about 30% Loads, some goroutines 90%; in half of the rounds 60% of the goroutines also Save what they last read or wrote, 10-20% of their operations); non-trivial = lock ownership alternates between OS processes in at least 10% of consecutive updates and Loads observed at least 3 distinct intermediate values of the shared counter. every fourth stress round is followed by a round with the in-process stdout path: one goroutine is the unit's STDoutWriter (Write -> saveStdoutSize) against 3-8 updating/loading goroutines in 2-3 processes; non-trivial = the size changed between consecutive increments at least 3 times. Half of the goroutines keep one StatusFileData for their whole program, 60% of the rounds start from an existing record, the others from no file."
+	im.Rule = "trace rounds: 1-3 OS processes x 1-3 thread-locked goroutines run random programs of 2-6 UpdateFullStatus/Load/Save calls (two thirds of the rounds with Saves) under one strace; non-trivial = at least 2 processes and at least one flock call had to wait. stress rounds: 2-4 processes x 2-4 goroutines x 10-60 operations (about 30% Loads, some goroutines 90%; in half of the rounds 60% of the goroutines also Save what they last read or wrote, 10-20% of their operations); non-trivial = lock ownership alternates between OS processes in at least 10% of consecutive updates and Loads observed at least 3 distinct intermediate values of the shared counter. every fourth stress round is followed by a round with the in-process stdout path: one goroutine is the unit's STDoutWriter (Write -> saveStdoutSize) against 3-8 updating/loading goroutines in 2-3 processes; non-trivial = the size changed between consecutive increments at least 3 times. unit-object rounds: 2-3 processes each own ONE BaseWorkUnit for the whole round; a sequential script of 9-25 UpdateBasicStatus / UpdateFullStatus / Save / Load calls on them built from the patterns 'p sets v, q sets w, p sets v again' and 'p loads, q sets w, p saves' , two thirds of the rounds with 2-6 background goroutines incrementing counters in ExtraData through their own unit objects; non-trivial = at least 3 scripted writes and (a Save round or at least 10 background increments). Half of the goroutines keep one StatusFileData for their whole program, 60% of the rounds start from an existing record, the others from no file."
 	cf := &CaseFile{Dir: c.Out, Prop: "C14", Imports: []string{"Model.Lock"}, CaseType: "lock_case", CheckFn: "lock_check", PerShard: 40}
 	tmp, err := os.MkdirTemp("", "c14-")
 	Must(err)
@@ -1341,6 +1341,16 @@ func runC14(c *Ctx) {
 			runStressOut(c, im, cf, ro, i/4)
 			_ = os.RemoveAll(ro.Dir)
 		}
+	}
+	runErrorPaths(c, im, tmp)
+	nUnits := 6
+	if c.Thorough() {
+		nUnits = 60
+	}
+	for i := 0; i < nUnits; i++ {
+		d := filepath.Join(tmp, fmt.Sprintf("u%d", i))
+		runUnitRound(c, im, cf, d, i)
+		_ = os.RemoveAll(d)
 	}
 	im.Extra["totals"] = map[string]int{"stress_updates": c14Totals.updates, "stress_loads": c14Totals.loads, "stress_saves": c14Totals.saves, "stress_stdout_writes": c14Totals.outWrites,
 		"cross_process_lock_alternations": c14Totals.alternations, "trace_syscalls_projected": c14Totals.traceEvents, "trace_blocked_flock_calls": c14Totals.blockedLocks}
